@@ -8,7 +8,7 @@ import Fips204.Lemmas.SignOk
 namespace Fips204.Impl
 open Fips204 Fips204.Gen
 
-theorem getD_of_lt (y : List Nat) (i : Nat) (h : i < y.length) : y.getD i 0 = y[i] := by
+theorem getD_nat_of_lt (y : List Nat) (i : Nat) (h : i < y.length) : y.getD i 0 = y[i] := by
   rw [List.getD_eq_getElem?_getD, List.getElem?_eq_getElem h]; rfl
 
 theorem hintInner_is_spec (y : List Nat) (hy : ∀ b ∈ y, b < 256) (first limit : Nat) (hl : limit ≤ y.length) :
@@ -23,9 +23,9 @@ theorem hintInner_is_spec (y : List Nat) (hy : ∀ b ∈ y, b < 256) (first limi
     by_cases hlt : index < limit
     · rw [if_pos hlt, if_pos hlt, idx_ok _ y index (by omega), ok_bind]
       have hcur : y[index]'(by omega) < hp.length := by rw [hb]; exact hy _ (List.getElem_mem _)
-      rw [getD_of_lt y index (by omega)]
+      rw [getD_nat_of_lt y index (by omega)]
       by_cases hf : index > first
-      · rw [if_pos hf, idx_ok _ y (index - 1) (by omega), ok_bind, getD_of_lt y (index - 1) (by omega)]
+      · rw [if_pos hf, idx_ok _ y (index - 1) (by omega), ok_bind, getD_nat_of_lt y (index - 1) (by omega)]
         by_cases hge : y[index - 1]'(by omega) ≥ y[index]'(by omega)
         · rw [if_pos hge, if_pos ⟨hf, hge⟩]; rfl
         · rw [if_neg hge, if_neg (show ¬ (index > first ∧ y[index - 1]'(by omega) ≥ y[index]'(by omega)) from fun h => hge h.2), if_pos hcur]
@@ -44,7 +44,7 @@ theorem hintOuter_is_spec (m : Mode) (y : List Nat) (hy : ∀ b ∈ y, b < 256) 
     intro index acc hi
     unfold hintOuter Spec.hintFor
     have hil : om + i < y.length := hi i List.mem_cons_self
-    rw [idx_ok _ y (om + i) hil, ok_bind, getD_of_lt y (om + i) hil]
+    rw [idx_ok _ y (om + i) hil, ok_bind, getD_nat_of_lt y (om + i) hil]
     by_cases hrej : y[om + i] < index ∨ y[om + i] > om
     · have : (decide (y[om + i] < index) || decide (y[om + i] > om)) = true := by
         rcases hrej with h | h <;> simp [h]
@@ -74,7 +74,7 @@ theorem mapM_idx_getD (site : String) (y : List Nat) (index : Nat) :
     | cons d ds ih =>
       intro h
       rw [List.mapM_cons, idx_ok _ y (index + d) (h d List.mem_cons_self), ok_bind, ih (fun x hx => h x (List.mem_cons_of_mem _ hx)), ok_bind,
-        List.map_cons, getD_of_lt y (index + d) (h d List.mem_cons_self)]
+        List.map_cons, getD_nat_of_lt y (index + d) (h d List.mem_cons_self)]
       rfl
   exact this (List.range n) (fun d hd => by have := List.mem_range.mp hd; omega)
 
